@@ -292,6 +292,25 @@ def rule_automaton(facts):
                             pairs.add((i_, cidx(e_[2])))
                     elif i_ >= 1:
                         arr[i_] = None
+    # ... or a memmove: `self.rep.copy_within(0..k, 1)` is rep[i + 1] = rep[i] for i = k-1 down to 0
+    cw_sym = False
+    for blk in b.calls():
+        if not (flow.callee(blk.term) or "").endswith("copy_within") or len(blk.term.args) != 3:
+            continue
+        if not pat.has_field(tm.of_operand(blk.term.args[0]), "rep"):
+            continue
+        rg = pat.strip(tm.of_operand(blk.term.args[1]))
+        dst_ = tm.of_operand(blk.term.args[2])
+        if not (rg[0] == "agg" and str(rg[1]).endswith("Range::Range") and len(rg[2]) == 2 and rg[2][0] == ("const", 0) and dst_ == ("const", 1)):
+            continue
+        k_ = cidx(rg[2][1])
+        if k_ is not None and kind_of(blk.idx) == "match" and 1 <= k_ <= 3:
+            old_arr = list(arr)
+            for i_ in range(k_):
+                arr[i_ + 1] = old_arr[i_]
+                pairs.add((i_ + 1, i_))
+        elif k_ is None:
+            cw_sym = True
     if {(3, 2), (2, 1), (1, 0)} <= pairs and arr[1:] == [0, 1, 2]:
         r.ok("evaluation", {"new-distance rotation": "rep[3]=rep[2]; rep[2]=rep[1]; rep[1]=rep[0] in this order: [_, r0, r1, r2]"})
     else:
@@ -315,6 +334,8 @@ def rule_automaton(facts):
             r.ok("table", {"rep-match rotation": "rep[i+1] = rep[i] for i = idx-1 down to 0, then rep[0] = old rep[idx]"})
         else:
             r.bad("automaton|rep-rotation", "the rep-match rotation is not rep[i+1] = rep[i]", pat.where(b))
+    elif cw_sym:
+        r.ok("table", {"rep-match rotation": "rep.copy_within(0..idx, 1), then rep[0] = old rep[idx]"})
     else:
         r.bad("automaton|rep-rotation-missing", "no rep[i+1] = rep[i] rotation for repeated matches", pat.where(b))
     # copy terms
